@@ -1,6 +1,8 @@
 package gov
 
 import (
+	"math/big"
+
 	"github.com/cosmos/cosmos-sdk/baseapp"
 	sdk "github.com/cosmos/cosmos-sdk/types"
 	"github.com/cosmos/cosmos-sdk/types/bech32"
@@ -85,7 +87,7 @@ func VerifC17Gov() {
 		receipt.Logs = append(receipt.Logs, l)
 	}
 
-	err := h.PostTxProcessing(ctx, nil, receipt)
+	err := h.PostTxProcessing(ctx, anyTxMessage(), receipt)
 
 	rt.Reach("hook-returned")
 	rt.Assert("D1-at-most-one-vote-per-contract-log", len(routed) <= nFrom)
@@ -136,4 +138,15 @@ func VerifC17Gov() {
 			rt.Assert("D2-known-message-type", false)
 		}
 	}
+}
+
+// anyTxMessage: the EVM transaction whose receipt is processed - any sender, any recipient (an externally owned account
+// calling the system contract directly, a user contract that calls it in a nested call, a contract creation), any call data.
+func anyTxMessage() ethtypes.Message {
+	var to *common.Address
+	if rt.Bool("tx.has-recipient") {
+		a := common.BytesToAddress(rt.BytesN("tx.to", 20))
+		to = &a
+	}
+	return ethtypes.NewMessage(common.BytesToAddress(rt.BytesN("tx.from", 20)), to, rt.U64("tx.nonce"), big.NewInt(0), rt.U64("tx.gas"), big.NewInt(0), big.NewInt(0), big.NewInt(0), rt.Bytes("tx.data"), nil, false)
 }
